@@ -452,6 +452,8 @@ impl Model {
         let float_var_count = self.vars.float_var_count;
         let set_var_count = self.vars.set_var_count;
         
+        // An invalid model (reversed bounds, empty domain, ...) must not be answered by the fast path
+        crate::core::validation::ModelValidator::new(&self.vars, &self.props).validate()?;
         // First try specialized optimization (Step 2.4 precision handling)
         match self.try_optimization_minimize(&objective) {
             Some(mut solution) => {
@@ -627,6 +629,8 @@ impl Model {
         let float_var_count = self.vars.float_var_count;
         let set_var_count = self.vars.set_var_count;
         
+        // An invalid model must not be answered by the fast path
+        crate::core::validation::ModelValidator::new(&self.vars, &self.props).validate()?;
         // First try specialized optimization before falling back to opposite+minimize pattern
         match self.try_optimization_maximize(&objective) {
             Some(mut solution) => {
